@@ -8,6 +8,7 @@ import SodiumModel.Spec.Scrypt
 import SodiumModel.Spec.Blake2b
 import SodiumModel.Spec.Sha256
 import SodiumModel.Model.ScryptRef   -- scrypt-ref (G3)
+import SodiumModel.Model.ScryptSse   -- scrypt-sse: the SSE2-structured scrypt core (the code this host selects)
 import SodiumModel.Model.Argon2Simd  -- argon2-simd: the AVX2-structured block function inside the Argon2 core
 /-
   C08 driver: password hashing ops through Model/Pwhash.lean. The Argon2 core is the C-structured model of
@@ -31,9 +32,28 @@ def scryptRef (pwd salt : Bytes) (N r p dkLen : Nat) : Bytes :=
     (UInt64.ofNat dkLen)).out
 -- END scrypt-ref (G3)
 
+-- BEGIN scrypt-sse: the scrypt core is ALSO run through the C-structured model of the SSE2 code
+-- (Model/ScryptSse.lean: escrypt_kdf_sse = PBKDF2 / smix / blockmix_salsa8 / blockmix_salsa8_xor / SALSA20_8_XOR on __m128i with
+-- the shuffled word layout) whenever the cost N * r * p is at most 2^16 (every scrypt operation of the corpus except the 16 MiB
+-- in-range probe); if the two models disagree the output is made visibly wrong (every byte complemented, one byte appended), so
+-- the correspondence with the real library (which runs the SSE2 code on this host) fails.
+def scryptSse (pwd salt : Bytes) (N r p dkLen : Nat) : Bytes :=
+  (ScryptSse.escrypt_kdf_sse C04.H256 (fun _ => true) pwd salt (UInt64.ofNat N) (UInt32.ofNat r) (UInt32.ofNat p)
+    (UInt64.ofNat dkLen)).out
+def scryptSmall (N r p : Nat) : Bool := N * r * p ≤ 65536
+def scryptBoth (pwd salt : Bytes) (N r p dkLen : Nat) : Bytes :=
+  let a := scryptRef pwd salt N r p dkLen
+  if scryptSmall N r p then
+    (if scryptSse pwd salt N r p dkLen == a then a else a.map (fun b => b ^^^ 0xff) ++ [0xEE])
+  else a
+-- END scrypt-sse
+
 def prims : Prims :=
   { argon2 := fun y pwd salt t m lanes outlen => Argon2Ref.argon2_hash_ref_model blake2b y pwd salt t m lanes outlen
     scrypt := scryptRef }   -- scrypt-ref (G3)
+
+/-- scrypt-sse: the primitives used by the scrypt operations: reference-structured core cross-run with the SSE2-structured core -/
+def primsS : Prims := { prims with scrypt := scryptBoth }
 
 -- BEGIN argon2-simd: for small memory sizes (m_cost ≤ 64 KiB) the operation is ALSO run with the model of
 -- `argon2_fill_segment_avx2` (Model/Argon2Simd.lean: `fill_block` on `__m256i state[32]`, BLAKE2_ROUND_1 / _2, G1_AVX2 / G2_AVX2,
@@ -108,21 +128,27 @@ def handle (op : String) (args : List String) : Option String :=
   | "scrypt.raw", [outlen, pw, salt, ops, mem] => do
     let outlen ← u64? outlen; let pw ← ofHex pw; let salt ← ofHex salt; let ops ← u64? ops; let mem ← u64? mem
     if outlen > 2 ^ 20 ∨ salt.length ≠ 32 then some badArgs else
-    some (resLine (crypto_pwhash_scrypt prims outlen pw salt ops mem))
+    some (resLine (crypto_pwhash_scrypt primsS outlen pw salt ops mem))   -- scrypt-sse
   | "scrypt.ll", [pw, salt, N, r, p, outlen] => do
     let pw ← ofHex pw; let salt ← ofHex salt; let N ← u64? N; let r ← u64? r; let p ← u64? p; let outlen ← u64? outlen
     if outlen > 2 ^ 16 then some badArgs else
     -- scrypt-ref (G3): `_ll` through the model of the C function itself (its own parameter checks, uint64/uint32 arguments)
     let res := ScryptRef.crypto_pwhash_scryptsalsa208sha256_ll C04.H256 (fun _ => true) pw salt (UInt64.ofNat N)
       (UInt32.ofNat r) (UInt32.ofNat p) (UInt64.ofNat outlen)
-    some (if res.rc ≠ 0 then s!"{res.rc}" else s!"0 {toHex res.out}")
+    -- scrypt-sse: and through the model of the SSE2 `escrypt_kdf_sse` (its own parameter checks); the two must agree
+    let resS := if res.rc ≠ 0 ∨ scryptSmall N r p then
+        ScryptSse.crypto_pwhash_scryptsalsa208sha256_ll C04.H256 (fun _ => true) pw salt (UInt64.ofNat N)
+          (UInt32.ofNat r) (UInt32.ofNat p) (UInt64.ofNat outlen)
+      else res
+    let line := if res.rc ≠ 0 then s!"{res.rc}" else s!"0 {toHex res.out}"
+    some (if resS.rc = res.rc ∧ resS.out = res.out ∧ resS.errno = res.errno then line else line ++ " MODEL-DISAGREE")
   | "scrypt.str", [pw, ops, mem, salt] => do
     let pw ← ofHex pw; let ops ← u64? ops; let mem ← u64? mem; let salt ← ofHex salt
-    let r := crypto_pwhash_scrypt_str prims pw ops mem (script salt 32)
+    let r := crypto_pwhash_scrypt_str primsS pw ops mem (script salt 32)   -- scrypt-sse
     some (if r.rc ≠ 0 then s!"{r.rc} errno={r.errno}" else s!"0 {toHex (r.out.takeWhile (· != 0))}")
   | "scrypt.verify", [st, pw] => do
     let st ← ofHex st; let pw ← ofHex pw
-    some s!"{crypto_pwhash_scrypt_str_verify prims st pw []}"
+    some s!"{crypto_pwhash_scrypt_str_verify primsS st pw []}"   -- scrypt-sse
   | "scrypt.needs_rehash", [st, ops, mem] => do
     let st ← ofHex st; let ops ← u64? ops; let mem ← u64? mem
     some s!"{(crypto_pwhash_scrypt_str_needs_rehash st ops mem).rc}"
